@@ -195,6 +195,9 @@ impl<'store> Transposable<'store> for ResultTextSelectionSet<'store> {
                                     continue;
                                 }
                                 resegment = true;
+                                //(the side the begin of the source lies in is the source side: the remainder
+                                // must be found there too, not in another side of the same resource)
+                                source_side = Some(side_i);
                                 //the text selection was not matched/consumed entirely
                                 //add the remainder of the text selection back to the buffer
                                 tselbuffer
